@@ -173,6 +173,8 @@ def layout_cases(draw):
         "fill": draw(st.sampled_from(["noise", "noise", "grid", "bits"])),
         "decades": draw(st.integers(0, 8)),
         "sat": draw(st.sampled_from([0.3, 1.0, 1.0, 3.0])),
+        # all scales moved together towards the ends of the dtype's range (subnormal scales, scales near the maximum)
+        "shift": draw(st.sampled_from([0, 0, 0, 0, -140, -128, -100, -20, 60, 100])),
     }
 
 
@@ -187,7 +189,10 @@ def layout_inputs(case):
     nscale = 1 if axis is None else shape[axis]
     # one independent scale per kept-axis index, spread over `decades` decades
     e = (torch.rand(nscale, generator=g, dtype=torch.float64) - 0.5) * case["decades"]
-    sc = (10.0**e * (0.5 + torch.rand(nscale, generator=g, dtype=torch.float64))).to(dtype)
+    shift = case.get("shift", 0)
+    if dtype == torch.float16:
+        shift = max(-20, min(shift, 10))
+    sc = (10.0**e * (0.5 + torch.rand(nscale, generator=g, dtype=torch.float64)) * 2.0**shift).to(dtype)
     sc = torch.where(sc > 0, sc, torch.tensor(1.0, dtype=dtype)).clamp(max=torch.finfo(dtype).max)
     if axis is None:
         scale = sc.reshape(())
